@@ -3,6 +3,7 @@ package main
 import (
 	"fmt"
 	"math/rand"
+	"strings"
 	"time"
 
 	"golang.org/x/net/http2"
@@ -125,6 +126,16 @@ func (x *fexec) connEnded() string {
 
 func (x *fexec) ledgerFinding() *finding {
 	if v := x.l.Violations(); len(v) > 0 {
+		// a hard finding outranks the separately classified decrease race
+		for i := range v {
+			if !strings.HasSuffix(v[i].Kind, "-decrease-race") {
+				v[0] = v[i]
+				break
+			}
+		}
+		if strings.HasSuffix(v[0].Kind, "-decrease-race") {
+			return &finding{class: x.sc.Rig + "/" + v[0].Kind, msg: fmt.Sprintf("first DATA frame of the stream after the ACK of a decrease, sized with the value in force before it: %s (and %d more ledger findings)", v[0].Msg, len(v)-1)}
+		}
 		return &finding{class: x.sc.Rig + "/" + x.sc.Family + "/" + v[0].Kind, msg: fmt.Sprintf("%s (and %d more ledger findings)", v[0].Msg, len(v)-1)}
 	}
 	return nil
@@ -340,6 +351,14 @@ func (x *fexec) step(o fop) *finding {
 			l.WindowUpdate(0, uint32(o.N))
 			ok, _ := l.WaitUntil(watchdog, func() bool { ga, _, _ := l.GoAway(); return ga })
 			x.over = true
+			if ga, _, _ := l.GoAway(); !ga && x.rigT() && l.EOF() {
+				// The transport tears the connection down on a connection error; its
+				// GOAWAY is written to a buffer that is never flushed. The teardown
+				// is accepted as the refusal.
+				run.Add("overflow-answered", 1)
+				run.Add("transport-conn-error-teardown-without-goaway", 1)
+				return x.ledgerFinding()
+			}
 			if ga, code, _ := l.GoAway(); !ok || !ga || code != http2.ErrCodeFlowControl {
 				if f := x.ledgerFinding(); f != nil {
 					return f
@@ -472,6 +491,17 @@ func (g *fgen) openOp(rigT bool) fop {
 	return o
 }
 
+// fallback is a step that is legal in every state.
+func fallback(s *fstream, allow, conn int64) []fop {
+	if allow < h2peer.MaxWindow {
+		return []fop{{K: "grant", S: s.idx, N: 1}}
+	}
+	if conn < h2peer.MaxWindow {
+		return []fop{{K: "grant", S: 0, N: 1}}
+	}
+	return []fop{{K: "mfs", N: 16384}}
+}
+
 func clampGrant(w, allow int64) int64 {
 	if w < 1 {
 		return 0
@@ -552,7 +582,7 @@ func (g *fgen) next(x *fexec) []fop {
 		if w := clampGrant(c[rng.Intn(len(c))], allow); w > 0 {
 			return []fop{{K: "grant", S: s.idx, N: w}}
 		}
-		return []fop{{K: "grant", S: s.idx, N: 1}}
+		return fallback(s, allow, conn)
 	case r < 62: // connection grant
 		c := []int64{1, 2, mfs - 1, mfs, mfs + 1, 16384, 65535, rem, rem + 1, allow, allow + 1, allow - 1, 1 + rng.Int63n(200000)}
 		if g.profile == "big" || g.profile == "neg" {
@@ -561,10 +591,7 @@ func (g *fgen) next(x *fexec) []fop {
 		if w := clampGrant(c[rng.Intn(len(c))], conn); w > 0 {
 			return []fop{{K: "grant", S: 0, N: w}}
 		}
-		if conn < h2peer.MaxWindow {
-			return []fop{{K: "grant", S: 0, N: 1}}
-		}
-		return []fop{{K: "grant", S: s.idx, N: 1}}
+		return fallback(s, allow, conn)
 	case r < 70 && len(x.streams) < g.maxStreams:
 		return []fop{g.openOp(x.rigT())}
 	case r < 75: // max frame size
@@ -580,24 +607,24 @@ func (g *fgen) next(x *fexec) []fop {
 		if allow >= 1 {
 			return []fop{{K: "overflow", S: s.idx, N: h2peer.MaxWindow - allow + 1 + rng.Int63n(allow)}}
 		}
-		return []fop{{K: "grant", S: s.idx, N: 1}}
+		return fallback(s, allow, conn)
 	case r < 88: // lift the stream window to exactly 2^31-1
 		if allow >= 0 && allow < h2peer.MaxWindow {
 			return []fop{{K: "grant", S: s.idx, N: h2peer.MaxWindow - allow}}
 		}
-		return []fop{{K: "grant", S: s.idx, N: 1}}
+		return fallback(s, allow, conn)
 	case r < 89: // lift the connection window to exactly 2^31-1
 		if conn < h2peer.MaxWindow {
 			return []fop{{K: "grant", S: 0, N: h2peer.MaxWindow - conn}}
 		}
-		return []fop{{K: "grant", S: s.idx, N: 1}}
+		return fallback(s, allow, conn)
 	case r < 100 && g.profile != "neg":
 		// another grant kind: grant to both at once (one check for both frames)
 		w := 1 + rng.Int63n(50000)
 		if clampGrant(w, allow) > 0 && clampGrant(w, conn) > 0 {
 			return []fop{{K: "grant", S: s.idx, N: w, Batch: true}, {K: "grant", S: 0, N: w}}
 		}
-		return []fop{{K: "grant", S: s.idx, N: 1}}
+		return fallback(s, allow, conn)
 	}
 	// SETTINGS_INITIAL_WINDOW_SIZE
 	st := l.Stream(s.sid)
@@ -635,7 +662,7 @@ func (g *fgen) next(x *fexec) []fop {
 	}
 	if over {
 		if x.rigT() {
-			return []fop{{K: "iw", N: 65535}}
+			return []fop{{K: "iw", N: l.InitialWindow()}}
 		}
 		g.drained = true
 		return []fop{{K: "iwoverflow", N: v}}
